@@ -81,6 +81,48 @@ def stub_eval(outcome, value=None):
     return ctx
 
 
+def staged_in_lambda_lists(chk):
+    """eval-and-compile whose run-time half needs statements, written where the compiler has to hoist them out of a lambda list:
+    the default of a parameter of each kind, an annotation, a decorator.  The body runs once at compile time and once when the
+    definition executes; the value is the last form's."""
+    import types
+    places = {
+        "default of a positional-only parameter": ('(defn g [[p (eval-and-compile (.append log "x") 5)] /] p)', "(g)"),
+        "default of an ordinary parameter": ('(defn g [[p (eval-and-compile (.append log "x") 5)]] p)', "(g)"),
+        "default of a keyword-only parameter": ('(defn g [* [p (eval-and-compile (.append log "x") 5)]] p)', "(g)"),
+        "default of a keyword-only parameter after #*": ('(defn g [#* r [p (eval-and-compile (.append log "x") 5)]] p)', "(g)"),
+        "default of a keyword-only parameter of fn": ('(setv g (fn [a * [p (eval-and-compile (.append log "x") 5)]] p))', "(g 1)"),
+        "default that needs a temporary": ('(defn g [* [p (eval-and-compile (.append log "x") (if log (do (setv q 5) q) 0))]] p)', "(g)"),
+        "annotation of a keyword-only parameter": ('(defn g [* #^ (eval-and-compile (.append log "x") int) [p 5]] p)', "(g)"),
+        "annotation of an ordinary parameter": ('(defn g [#^ (eval-and-compile (.append log "x") int) [p 5]] p)', "(g)"),
+        "return annotation": ('(defn #^ (eval-and-compile (.append log "x") int) g [] 5)', "(g)"),
+        "decorator": ('(defn [(eval-and-compile (.append log "x") (fn [f] f))] g [] 5)', "(g)"),
+        "class body": ('(defclass C [] (setv p (eval-and-compile (.append log "x") 5))) (setv g (fn [] C.p))', "(g)"),
+    }
+    for what, (defn, call) in places.items():
+        src = f'(eval-and-compile (setv log [])) {defn} [(list log) {call}]'
+        ct = []
+        mod = types.ModuleType("hv_c16s")
+        try:
+            # compile first (compile-time half), look at the log, then run
+            import hy.compiler as hc
+            tree = hc.hy_compile(hy.read_many(src), mod, root=ast.Module)
+            ct = list(getattr(mod, "log", ["<no log>"]))
+            ns = mod.__dict__
+            body, last = tree.body[:-1], tree.body[-1]
+            exec(compile(ast.Module(body=body, type_ignores=[]), "<c16s>", "exec"), ns)
+            got = eval(compile(ast.Expression(body=last.value), "<c16s>", "eval"), ns)
+        except Exception as e:  # noqa: BLE001
+            got = f"{type(e).__name__}: {e}"[:200]
+        want = [["x"], 5]
+        ok = ct == ["x"] and got == want
+        chk.case(("staged", what))
+        chk.ob(f"staged/eval-and-compile as {what}: once at compile time, once at run time, value of the last form", ok, "cpython-oracle", "proved",
+               detail=f"compile-time log {ct}, run-time [log, value] {got!r}",
+               replay=None if ok else {"confirmed": True, "input": src, "observed": f"compile-time log {ct}, run-time [log, value] {got!r}",
+                                       "expected": f"compile-time log ['x'], run-time [log, value] {want!r}"})
+
+
 def run(chk):
     C = rules.Case
     f = "hy/core/result_macros.py::compile_eval_foo_compile"
@@ -170,6 +212,16 @@ def run(chk):
             never = sorted(t.name for t in toks if isinstance(t, Tok) and t.name not in counts)
             if never:
                 return ("violated", f"never compiled: {', '.join(never)}\n" + sx.show(out.result), None)
+        # ... and what was compiled is part of the result: the run-time half of a sub-form (its statements) runs as often as the
+        # construct evaluates the sub-form - never zero times because the rule dropped the statements on the way
+        if out.ok:
+            import ast as _ast
+            roots = list(out.result.stmts) + ([out.result._expr] if out.result._expr is not None else [])
+            present = {getattr(n.tok, "name", None) for r in roots for n in _ast.walk(r) if isinstance(n, sx.AbsStmt)}
+            lost = sorted(t.name for t, shp in zip(toks, sv) if isinstance(t, Tok) and shp in ("S", "SE") and t.name in counts
+                          and t.name not in present)
+            if lost:
+                return ("violated", f"compiled, but its statements are not in the result: {', '.join(lost)}\n" + sx.show(out.result), None)
         return ("ok", None, None)
     from hv.catalog import Entry
     from hv.catalog import B as CB
@@ -189,6 +241,7 @@ def run(chk):
         import inspect
         Entry(nm, b, [CB] * len(inspect.signature(b).parameters), "hy/compiler.py::HyASTCompiler._compile_branch")
     structural.run(chk, "compile-once", compiled_once, prefix="compile-once")
+    staged_in_lambda_lists(chk)
     # defmacro
     from hy.reader import mangle
     import hy.macros as hmac
